@@ -699,6 +699,9 @@ void run_history(const J &hist) {
     }
   }
   opts.resolvconf_path = (char *)resolv.c_str(); optmask |= ARES_OPT_RESOLVCONF;
+  // environment part of resolv.conf(5): LOCALDOMAIN / RES_OPTIONS (only consulted when the configuration is read from files)
+  if (g_cfg.has("localdomain")) setenv("LOCALDOMAIN", g_cfg["localdomain"].str().c_str(), 1); else unsetenv("LOCALDOMAIN");
+  if (g_cfg.has("resoptions")) setenv("RES_OPTIONS", g_cfg["resoptions"].str().c_str(), 1); else unsetenv("RES_OPTIONS");
   std::string hosts = g_cfg["hosts"].str("/dev/null");
   std::string aliases_tmp;
   if (g_cfg["hostaliases"].num()) {  // fixed HOSTALIASES database (mirrored by AliasDb in Search.tla)
@@ -754,16 +757,33 @@ void run_history(const J &hist) {
   ares_set_server_state_callback(g_channel, server_state_cb, nullptr);
   if (g_cfg["pendwrite"].num()) ares_set_pending_write_cb(g_channel, pending_write_cb, nullptr);
   if (g_cfg.has("sortlist")) ares_set_sortlist(g_channel, g_cfg["sortlist"].str().c_str());
+  std::string ldj;   // LOCALDOMAIN as a list of words
+  {
+    std::string v = g_cfg["localdomain"].str(""), w;
+    for (size_t i = 0; i <= v.size(); i++) {
+      if (i == v.size() || v[i] == ' ' || v[i] == ',') {
+        if (!w.empty()) ldj += (ldj.empty() ? "" : ",") + jstr(w);
+        w.clear();
+      } else w += v[i];
+    }
+  }
+  int resndots = -1;  // RES_OPTIONS "ndots:n"
+  {
+    std::string v = g_cfg["resoptions"].str("");
+    size_t      p = v.find("ndots:");
+    if (p != std::string::npos) resndots = atoi(v.c_str() + p + 6);
+  }
   std::string domj;
   for (auto &d : domstore) domj += (domj.empty() ? "" : ",") + jstr(d);
   ev("{\"e\":\"init\",\"nsrv\":%d,\"tries\":%d,\"timeout\":%d,\"maxtimeout\":%lld,\"rotate\":%lld,\"udpmax\":%lld,\"usevc\":%lld,\"igntc\":%lld,"
      "\"nocheckresp\":%lld,\"edns\":%lld,\"dns0x20\":%lld,\"stayopen\":%lld,\"nosearch\":%lld,\"noaliases\":%lld,\"qcache\":%lld,\"ndots\":%d,"
-     "\"domains\":[%s],\"lookups\":%s,\"retrychance\":%lld,\"retrydelay\":%lld,\"pendwrite\":%lld,\"tfo\":%lld,\"hintmax\":%lld,\"hostsfile\":%lld,\"usefile\":%d,\"hostaliases\":%lld}",
+     "\"domains\":[%s],\"lookups\":%s,\"retrychance\":%lld,\"retrydelay\":%lld,\"pendwrite\":%lld,\"tfo\":%lld,\"hintmax\":%lld,\"hostsfile\":%lld,\"usefile\":%d,\"hostaliases\":%lld,"
+     "\"viafile\":%d,\"localdomain\":[%s],\"resndots\":%d}",
      g_nservers, opts.tries, opts.timeout, g_cfg["maxtimeout"].num(0), g_cfg["rotate"].num(0), g_cfg["udpmax"].num(0), g_cfg["usevc"].num(0),
      g_cfg["igntc"].num(0), g_cfg["nocheckresp"].num(0), g_cfg["edns"].num(0), g_cfg["dns0x20"].num(0), g_cfg["stayopen"].num(0),
      g_cfg["nosearch"].num(0), g_cfg["noaliases"].num(1), g_cfg["qcache"].num(0), opts.ndots, domj.c_str(), jstr(lookups).c_str(),
      g_cfg["retrychance"].num(10), g_cfg["retrydelay"].num(5000), g_cfg["pendwrite"].num(0), g_cfg["tfo"].num(0), g_cfg["hintmax"].num(0), g_cfg["hostsfile"].num(0),
-     lookups.find('f') != std::string::npos ? 1 : 0, g_cfg["hostaliases"].num(0));
+     lookups.find('f') != std::string::npos ? 1 : 0, g_cfg["hostaliases"].num(0), viafile ? 1 : 0, ldj.c_str(), resndots);
 
   for (auto &st : hist["steps"].a) exec_step(st, 0);
   if (g_channel != nullptr) {
